@@ -157,7 +157,7 @@ impl BigUint {
 //@ extract src/biguint.rs :: fn biguint_from_vec props=C04,C09
 pub(crate) fn biguint_from_vec(digits: Vec<BigDigit>) -> /*+*/(r: /*-*/BigUint/*+*/)/*-*/
 //+{
-    ensures r.wf(), r.v() == val(digits@)
+    ensures r.wf(), r.v() == val(digits@), r.dg().len() <= digits@.len()
 //+}
 {
     BigUint { data: digits }.normalized()
